@@ -65,9 +65,15 @@ def gen_C08(r, tier):
 def fix_f32(op):
     """replace invalid f64 patterns that are not f32-representable by representable ones of the same class"""
     t = op.split()
-    if t[0] not in ("ins", "insh"):
+    if t[0] in ("ins", "insh"):
+        ks = (1, 2)
+    elif t[0] == "adde":
+        ks = (1, 2, 4, 5)
+    elif t[0] == "addes":
+        ks = tuple(j for i in range(int(t[1])) for j in (3 + 3 * i, 4 + 3 * i))
+    else:
         return op
-    for k in (1, 2):
+    for k in ks:
         b = int(t[k])
         x = gen.from_bits(b)
         if not gen.is_f32(x):
@@ -590,7 +596,9 @@ def gen_C07(r, tier):
     out += gen_lattice_cdt(q, q, qops=("canc", "tryc", "confv"))(r, "quick")
     out += gen_wheel(q // 3, q // 3)(r, "quick")
     out += gen_C20(r, "quick")[:q]
-    out += gen_C13(r, "quick")[:q]
+    c13 = gen_C13(r, "quick")
+    r.shuffle(c13)
+    out += c13[:q * 3]
     out += PROPS["C05"]["gen"](r, "quick")[:q * 2]
     for k, c in enumerate(out):
         c.cid = "z%d" % k
@@ -688,6 +696,33 @@ def gen_C13(r, tier):
         for _ in range(r.range(1, 3)):
             c.add("split", "v%d" % r.below(64), "v%d" % r.below(64))
         out.append(c)
+    for i in range(n_cases(tier, 300, 3000)):
+        # coarse arithmetic: every coordinate lies in [2^23, 2^23 + 32) (f32) or [2^52, 2^52 + 32) (f64), where the scalar type only has integers;
+        # the crossings of a long segment with a fan of constraints are rational, so their rounded positions fall onto lattice points,
+        # many of which are existing vertices (unusable split positions followed by usable ones and vice versa)
+        kind, scalar, hint = gen.pick_cfg(r, ("cdt",), 0.5)
+        c = Case("o%d" % i, "cdt", scalar, hint)
+        c.meta = {"style": "split-coarse", "kind": "cdt", "scalar": scalar, "hint": hint}
+        off = float(2 ** 23) if scalar == "f32" else float(2 ** 52)
+        g = r.choice([3, 4, 6])
+        d = 1
+        n = r.range(2, 5)
+        P = lambda x, y: (bits(off + 16 + x), bits(off + 16 + y))
+        for k in range(n):
+            x = -g + 2 * k
+            a = P(x + r.choice([0, 1]), -g - r.range(0, 2)); b = P(x + r.choice([0, 1, 2]), g + r.range(0, 2))
+            c.add("adde", a[0], a[1], d, b[0], b[1], d + 1)
+            d += 2
+        a = P(-g - 3, r.range(-2, 2)); b = P(-g + 2 * n + 2, r.range(-2, 4))
+        c.add("ins", a[0], a[1], d); d += 1
+        c.add("ins", b[0], b[1], d); d += 1
+        for _ in range(r.range(2, 10)):
+            q = P(r.range(-g, -g + 2 * n), r.range(-3, 4))
+            c.add("ins", q[0], q[1], d); d += 1
+        c.add("split", "v%d" % (2 * n), "v%d" % (2 * n + 1))
+        if r.chance(0.4):
+            c.add("split", "v%d" % r.below(64), "v%d" % r.below(64))
+        out.append(c)
     return out
 
 PROPS.update({
@@ -702,7 +737,7 @@ PROPS.update({
 for _p in ("C02",):
     PROPS[_p]["gen"] = gen_union(PROPS[_p]["gen"], lambda r, tier: gen_C20(r, tier)[:n_cases(tier, 250, 2500)])
 PROPS["C03"]["gen"] = gen_union(PROPS["C03"]["gen"], lambda r, tier: gen_C13(r, tier)[:n_cases(tier, 600, 5000)])
-PROPS["C04"]["gen"] = gen_union(PROPS["C04"]["gen"], lambda r, tier: gen_C13(r, tier)[:n_cases(tier, 400, 4000)])
+PROPS["C04"]["gen"] = gen_union(PROPS["C04"]["gen"], lambda r, tier: gen_C13(r, tier)[:n_cases(tier, 1500, 8000)])
 
 def gen_C17(r, tier):
     out = gen_queries(("dt", "cdt"), ["line", "line", "lineh"], n_cases(tier, 500, 5000), n_cases(tier, 500, 5000), styles=[('grid', 60), ('circle', 15), ('line', 15), ('cluster', 10)],
@@ -728,11 +763,58 @@ def gen_C17(r, tier):
         out.append(c)
     for k, c in enumerate(out):
         c.cid = "n%d" % k
+    # coordinates that are NOT small integers on a common scale (thirds, sevenths, 53-bit fractions): the iterator's floating-point projections
+    # round; the model decides them exactly and is compared where the rounded comparisons provably take the same branch (Check/RunModel.v)
+    for i in range(n_cases(tier, 150, 1500)):
+        kind, _, hint = gen.pick_cfg(r, ("dt", "cdt"), 0.0)
+        c = Case("x%d" % i, kind, "f64", hint)
+        c.meta = {"style": "inexact-lines", "kind": kind, "scalar": "f64", "hint": hint}
+        style = r.choice(["frac", "seventh", "chain"])
+        n = r.choice([2, 3, 4, 5, 6, 8, 10])
+        def rnd(lo, hi):
+            return lo + (hi - lo) * (r.below(1 << 53) / float(1 << 53))
+        pts = []
+        for j in range(n):
+            if style == "frac":
+                q = (rnd(-3.0, 3.0), rnd(-3.0, 3.0))
+            elif style == "seventh":
+                q = (r.range(-7, 7) / 7.0, r.range(-7, 7) / 7.0)
+            else:
+                t = r.range(-5, 5)
+                q = (t / 3.0, 2 * t / 3.0 + 0.1) if r.chance(0.8) else (rnd(-2.0, 2.0), rnd(-2.0, 2.0))
+            pts.append(q)
+            c.ins(q[0], q[1], j + 1)
+        if kind == "cdt":
+            c.add("tryc", "v%d" % r.below(64), "v%d" % r.below(64))
+        def qp():
+            u = r.below(100)
+            if u < 35:
+                return r.choice(pts)
+            if u < 60:
+                p0, p1 = r.choice(pts), r.choice(pts)
+                return ((p0[0] + p1[0]) / 2, (p0[1] + p1[1]) / 2)
+            if u < 75:
+                p0, p1 = r.choice(pts), r.choice(pts)
+                k = r.choice([2.0, -1.0, 3.0])
+                return (p0[0] + k * (p1[0] - p0[0]), p0[1] + k * (p1[1] - p0[1]))
+            return (rnd(-4.0, 4.0), rnd(-4.0, 4.0))
+        for _ in range(14):
+            if r.chance(0.3):
+                c.add("lineh", "v%d" % r.below(64), "v%d" % r.below(64))
+            else:
+                a, b = qp(), qp()
+                # line_to is not an extrapolated point: an extrapolation that lands within an ulp of a vertex makes `factor > length_2` round the wrong
+                # way (the vertex, exactly on the supporting line and one ulp beyond line_to, is reported); witness kept, see the report of task M2
+                while b not in pts and any(abs(b[0] - q[0]) + abs(b[1] - q[1]) < 1e-9 for q in pts):
+                    b = qp()
+                c.add("line", bits(a[0]), bits(a[1]), bits(b[0]), bits(b[1]))
+        out.append(c)
     return out
 
 PROPS["C17"] = dict(gen=gen_C17, tags=["lineiter", "parse"], events=True, level="proof",
     rule="segments between exactly representable points (vertices, midpoints, lattice points of a box one cell larger than the point set, segments leaving exactly through vertices, "
-         "zero-length segments) on empty, single-vertex, collinear and two-dimensional DT/CDT states; new() and new_from_handles(). Non-trivial: >= 3 operations.",
+         "zero-length segments) on empty, single-vertex, collinear and two-dimensional DT/CDT states; in addition segments between vertices, computed midpoints and random points of "
+         "point sets whose coordinates are thirds, sevenths or 53-bit fractions (f64); new() and new_from_handles(). Non-trivial: >= 3 operations.",
     theorems="Props/C17.v", assumptions=[])
 
 def gen_C18(r, tier):
@@ -1072,3 +1154,313 @@ PROPS["C02"]["gen"] = gen_union(PROPS["C02"]["gen"], gen_line_rm(100, 1000, quer
 # state-based property counts it (C07 is the property about panics as such; here it keeps a panic from hiding a broken state)
 for _p in ("C01", "C02", "C03", "C04", "C10", "C14"):
     PROPS[_p]["events"] = True
+
+def gen_bulk_rings(quick, thorough):
+    """CDT bulk loads with constraint edges on point sets whose centre of mass (the sorting centre of the sweep) is far from the first few
+    points (the centre of the hull structure): two or three clusters, L shapes, rings with near outliers. On these the insertion order is
+    not monotone in the distance from the hull centre, the case in which the two hull walks of the sweep have real work to do.
+    Constraints join points that are neighbours in the input list (crossing ones lead to the documented panic)."""
+    import math
+    def g(r, tier):
+        out = []
+        for i in range(n_cases(tier, quick, thorough)):
+            kind, scalar, hint = gen.pick_cfg(r, ("cdt",), 0.1)
+            c = Case("r%d" % i, "cdt", scalar, hint)
+            st = r.choice(["clusters2", "clusters3", "lshape", "rings"])
+            c.meta = {"style": st, "kind": "cdt", "scalar": scalar, "hint": hint}
+            pts = []
+            def add(p):
+                p = (float(p[0]), float(p[1]))
+                if p not in pts:
+                    pts.append(p)
+            if st in ("clusters2", "clusters3"):
+                k = 2 if st == "clusters2" else 3
+                spread, rad = r.choice([(20, 3), (40, 6), (40, 6)])
+                cen = [(r.range(-spread, spread), r.range(-spread, spread)) for _ in range(k)]
+                for _ in range(r.range(6, 20)):
+                    cc = r.choice(cen)
+                    add((cc[0] + r.range(-rad, rad), cc[1] + r.range(-rad, rad)))
+            elif st == "lshape":
+                for _ in range(r.range(6, 14)):
+                    add((r.range(0, 30), r.range(0, 3)) if r.chance(0.5) else (r.range(0, 3), r.range(0, 30)))
+            else:
+                k = r.range(4, 9); R1 = r.range(5, 14)
+                for j in range(k):
+                    ang = 2 * math.pi * (j + r.range(-30, 30) / 100.0) / k
+                    rad = R1 + r.range(-2, 2)
+                    add((round(rad * math.cos(ang)), round(rad * math.sin(ang))))
+                for _ in range(r.range(1, 5)):
+                    ang = 2 * math.pi * r.range(0, 999) / 1000.0
+                    rad = R1 + (r.range(3, 6) if r.chance(0.75) else r.range(2, 4 * R1))
+                    add((round(rad * math.cos(ang)), round(rad * math.sin(ang))))
+            if len(pts) < 4:
+                continue
+            toks = []
+            for n, p in enumerate(pts):
+                toks += [bits(p[0]), bits(p[1]), n + 1]
+            es = []
+            for _ in range(r.range(1, 2)):
+                a = r.below(len(pts))
+                es += [a, (a + 1) % len(pts)]
+            c.add("bulkcs" if r.chance(0.5) else "bulkc", len(pts), *toks, len(es) // 2, *es)
+            c.add("hull")
+            out.append(c)
+        return out
+    return g
+
+for _p, _q in (("C10", 1500), ("C14", 1500), ("C04", 800), ("C02", 800)):
+    PROPS[_p]["gen"] = gen_union(PROPS[_p]["gen"], gen_bulk_rings(_q, 10 * _q))
+
+
+# "exactly what the caller asked for" includes the chain that add_constraint_and_split must create from a to b
+PROPS["C04"]["tags"] = PROPS["C04"]["tags"] + ["split"]
+
+def gen_split_overlap(quick, thorough):
+    """add_constraint_and_split along existing edges and through vertices, with constraints crossed directly behind such a vertex, in both
+    directions, under the eight lattice symmetries; small integer coordinates (crossing points are half-integers or integers)"""
+    def g(r, tier):
+        out = []
+        for i in range(n_cases(tier, quick, thorough)):
+            kind, scalar, hint = gen.pick_cfg(r, ("cdt",), 0.1)
+            c = Case("s%d" % i, "cdt", scalar, hint)
+            c.meta = {"style": "split-overlap", "kind": "cdt", "scalar": scalar, "hint": hint}
+            sx, sy, sw = r.choice([1, -1]), r.choice([1, -1]), r.chance(0.5)
+            def T(x, y):
+                x, y = sx * x, sy * y
+                return (float(y), float(x)) if sw else (float(x), float(y))
+            d = [1]
+            def ins(x, y):
+                p = T(x, y); c.ins(p[0], p[1], d[0]); d[0] += 1
+            def adde(x1, y1, x2, y2):
+                p, q = T(x1, y1), T(x2, y2)
+                c.add("adde", bits(p[0]), bits(p[1]), d[0], bits(q[0]), bits(q[1]), d[0] + 1); d[0] += 2
+            L = r.range(6, 12)
+            ins(0, 0); ins(2 * L, 0)                                  # V0 = a, V1 = b
+            xs = sorted(set(2 * r.range(1, L - 1) for _ in range(r.range(1, 4))))
+            for x in xs:                                              # vertices on the segment
+                ins(x, 0)
+            if r.chance(0.5) and xs:
+                adde(0, 0, xs[0], 0)                                  # an existing constraint along the first piece
+            for x in xs + [0]:
+                if r.chance(0.7):                                     # a constraint crossed directly behind (or before) a vertex on the segment
+                    off = r.choice([1, 1, 3, -1])
+                    if 0 < x + off < 2 * L and (x + off) not in xs:
+                        adde(x + off, -r.range(1, 3) * 2, x + off + r.choice([0, 0, 2, -2]), r.range(1, 3) * 2)
+            for _ in range(r.range(0, 4)):
+                ins(r.range(0, 2 * L), r.choice([-5, -4, 4, 5]))
+            a, b = ("V0", "V1") if r.chance(0.5) else ("V1", "V0")
+            c.add("split", a, b)
+            if r.chance(0.3):
+                c.add("split", "v%d" % r.below(64), "v%d" % r.below(64))
+            out.append(c)
+        return out
+    return g
+
+for _p in ("C13", "C04", "C03"):
+    PROPS[_p]["gen"] = gen_union(PROPS[_p]["gen"], gen_split_overlap(400, 4000))
+
+def gen_near_edge(quick, thorough, qops=("loc", "loch")):
+    """full-mantissa coordinates of mixed magnitude (1 .. 2^20) and queries that are the rounded images of points on edges (and of edge
+    prolongations): the exact answer is decided by the last bits, and any inexact shortcut in front of the robust orientation predicate
+    answers with the wrong face / side"""
+    def g(r, tier):
+        out = []
+        for i in range(n_cases(tier, quick, thorough)):
+            kind, scalar, hint = gen.pick_cfg(r, ("dt", "cdt"), 0.0)
+            c = Case("n%d" % i, kind, "f64", hint)
+            c.meta = {"style": "near-edge", "kind": kind, "scalar": "f64", "hint": hint}
+            def rnd(scale):
+                return (r.next() >> 11) / float(1 << 53) * scale * r.choice([1.0, 1.0, -1.0])
+            pts = []
+            for _ in range(r.range(3, 7)):
+                s = r.choice([1.0, 1.0, 2.0 ** 10, 2.0 ** 20, 2.0 ** 20])
+                pts.append((rnd(s), rnd(s)))
+            for j, (x, y) in enumerate(pts):
+                c.ins(x, y, j + 1)
+            for _ in range(14):
+                a, b = r.choice(pts), r.choice(pts)
+                if a == b:
+                    continue
+                t = (r.next() >> 11) / float(1 << 53)
+                if r.chance(0.15):
+                    t = r.choice([-0.25, 1.25, 1.0, 0.0])
+                q = (a[0] + t * (b[0] - a[0]), a[1] + t * (b[1] - a[1]))
+                if r.chance(0.3):
+                    q = (gen.ulp_step(q[0], r.range(-2, 2)), gen.ulp_step(q[1], r.range(-2, 2)))
+                op = r.choice(list(qops))
+                if op == "loch":
+                    c.add("loch", bits(q[0]), bits(q[1]), "v%d" % r.below(16))
+                elif op == "sq":
+                    c.add("sq", "d%d" % r.below(64), bits(q[0]), bits(q[1]))
+                else:
+                    c.add(op, bits(q[0]), bits(q[1]))
+            out.append(c)
+        return out
+    return g
+
+PROPS["C09"]["gen"] = gen_union(PROPS["C09"]["gen"], gen_near_edge(300, 3000))
+PROPS["C06"]["gen"] = gen_union(PROPS["C06"]["gen"], gen_near_edge(300, 3000, qops=("loc", "sq", "sq")))
+
+# line iterator model (Tri/LineIter.v): index-exact item lists
+PROPS["C17"]["model"] = True
+PROPS["C17"]["tags"] = PROPS["C17"]["tags"] + ["corr"]
+# get_conflicting_edges_between_points / _vertices and intersects_constraint run the same iterator: compared through Tri/LineIter.v
+PROPS["C12"]["model"] = True
+PROPS["C12"]["tags"] = PROPS["C12"]["tags"] + ["corr"]
+
+# M1: executable model of vertex removal (Tri/Remove.v) compared index-exactly on every rm / trm / lrm
+PROPS["C11"]["model"] = True
+PROPS["C11"]["tags"] = PROPS["C11"]["tags"] + ["corr"]
+
+def gen_rm_all(quick, thorough, kinds=("dt", "cdt")):
+    """M1: tear-down histories for the removal model: a triangulation of 4..18 points (dense lattice, exactly cocircular sets, collinear runs,
+    ulp-perturbed, wide magnitudes; incremental or bulk-loaded; CDTs with constraints through the vertices) is emptied vertex by vertex in
+    random order -- every removal kind occurs in every history: interior / hull vertices of all degrees with cocircular neighbours,
+    the transition to a collinear triangulation, end and inner chain vertices, the last 3 / 2 / 1 vertices; sometimes regrown and emptied again"""
+    def g(r, tier):
+        out = []
+        for i in range(n_cases(tier, quick, thorough)):
+            kind, scalar, hint = gen.pick_cfg(r, kinds, 0.15)
+            style = r.weighted([('grid', 40), ('circle', 25), ('line', 8), ('ulp', 8), ('mag', 6), ('unimod', 6), ('bigcircle', 7)])
+            c = Case("t%d" % i, kind, scalar, hint)
+            c.meta = {"style": "rm-all-" + style, "kind": kind, "scalar": scalar, "hint": hint}
+            n = r.range(4, 18 if tier != "thorough" else 40)
+            pool = gen.point_cloud(r, n, style, scalar == "f32")
+            if style == 'grid' and r.chance(0.5):
+                g_ = r.range(1, 3)      # very dense lattice: squares and rectangles everywhere
+                pool = [(float(r.range(-g_, g_)), float(r.range(-g_, g_))) for _ in range(n)]
+            d = 1
+            if r.chance(0.25):
+                toks = []
+                for (x, y) in pool:
+                    toks += [bits(x), bits(y), d]; d += 1
+                c.add(r.choice(["bulk", "bulks"]), len(pool), *toks)
+            else:
+                for (x, y) in pool:
+                    c.ins(x, y, d); d += 1
+            rounds = 2 if r.chance(0.2) else 1
+            for rnd in range(rounds):
+                if kind == "cdt":
+                    for _ in range(r.range(0, 5)):
+                        c.add(r.choice(["addc", "tryc", "tryc"]), "v%d" % r.below(64), "v%d" % r.below(64))
+                live = len(set(pool))
+                stop = 0 if rnd == rounds - 1 else r.range(0, 3)
+                while live > stop:
+                    sel = r.choice([0, live - 1, r.below(live), r.below(live), r.below(live)])
+                    c.add(r.choice(["rm", "rm", "rm", "trm"]), "v%d" % sel)
+                    live -= 1
+                if rnd < rounds - 1:
+                    for (x, y) in pool[:r.range(3, len(pool))]:
+                        c.ins(x, y, d); d += 1
+            out.append(c)
+        return out
+    return g
+
+PROPS["C11"]["gen"] = gen_union(PROPS["C11"]["gen"], gen_rm_all(500, 5000))
+
+def _circle_lattice(N):
+    import math
+    out = []
+    m = int(math.isqrt(N))
+    for x in range(-m, m + 1):
+        y2 = N - x * x
+        y = int(math.isqrt(y2))
+        if y * y == y2:
+            out.append((x, y))
+            if y != 0:
+                out.append((x, -y))
+    return out
+
+def gen_star_rm(quick, thorough, kinds=("dt", "cdt")):
+    """M1: removals with long flip cascades.  (a) star: a hub inside a star-shaped, strongly non-convex ring of 6..40 vertices (the fan that
+    remesh_edge_ring creates needs many and nested flips); (b) exact: ring = lattice points of one circle x^2+y^2 = 5*13*17*29 (all cocircular: no flip
+    is allowed to happen) plus a few points just inside; (c) hullfan: a hull vertex far below a wide cloud (isolate_convex_hull_vertex flips a long
+    chain of reflex neighbours).  The hub is removed first, then further vertices."""
+    import math
+    def g(r, tier):
+        out = []
+        for i in range(n_cases(tier, quick, thorough)):
+            kind, scalar, hint = gen.pick_cfg(r, kinds, 0.0)
+            mode = r.weighted([("star", 50), ("exact", 20), ("hullfan", 30)])
+            c = Case("s%d" % i, kind, scalar, hint)
+            c.meta = {"style": "rm-" + mode, "kind": kind, "scalar": scalar, "hint": hint}
+            n = r.range(6, 28 if tier != "thorough" else 60)
+            if mode == "star":
+                R = r.choice([40, 100, 1000, 100000])
+                hub = (0, 0)
+                others = []
+                offs = sorted(r.range(0, 3599) for _ in range(n))
+                for o in offs:
+                    ang = math.radians(o / 10.0)
+                    rad = r.range(R // 3, R)
+                    others.append((round(rad * math.cos(ang)), round(rad * math.sin(ang))))
+            elif mode == "exact":
+                pool = _circle_lattice(5 * 13 * 17 * 29)
+                r.shuffle(pool)
+                others = pool[:n]
+                hub = (r.range(-40, 40), r.range(-40, 40))
+                for _ in range(r.range(0, 4)):
+                    x, y = r.choice(pool)
+                    others.append((x - (1 if x > 0 else -1) * r.range(1, 3), y - (1 if y > 0 else -1) * r.range(1, 3)))
+            else:
+                W = r.choice([20, 100, 1000])
+                hub = (r.range(-W, W), -r.choice([2, 5, 50]) * W)
+                others = [(r.range(-W, W), r.range(0, max(2, W // r.choice([1, 4, 20])))) for _ in range(n)]
+            pts = [hub] + others
+            order = list(range(len(pts)))
+            if r.chance(0.6):
+                r.shuffle(order)
+            distinct = []
+            d = 1
+            for j in order:
+                c.ins(float(pts[j][0]), float(pts[j][1]), d); d += 1
+                if pts[j] not in distinct:
+                    distinct.append(pts[j])
+            if kind == "cdt":
+                for _ in range(r.range(0, 3)):
+                    c.add("tryc", "v%d" % r.below(64), "v%d" % r.below(64))
+            c.add("rm", "V%d" % distinct.index(hub))
+            for _ in range(r.range(0, 6)):
+                c.add("rm", "v%d" % r.below(64))
+            out.append(c)
+        return out
+    return g
+
+PROPS["C11"]["gen"] = gen_union(PROPS["C11"]["gen"], gen_star_rm(500, 5000))
+
+def gen_locv_cdt(quick, thorough):
+    """CDTs with long non-Delaunay constraint edges between close vertices (a greedy nearest-neighbour walk gets stuck at such an edge);
+    locate / locate_vertex queries at vertex positions alternate across the constraint, so that the hint of one query is on the wrong side for the next"""
+    def g(r, tier):
+        out = []
+        for i in range(n_cases(tier, quick, thorough)):
+            kind, scalar, hint = gen.pick_cfg(r, ("cdt",), 0.1)
+            c = Case("q%d" % i, "cdt", scalar, hint)
+            c.meta = {"style": "locv-cdt", "kind": "cdt", "scalar": scalar, "hint": hint}
+            L = r.choice([6, 10, 20])
+            sw = r.chance(0.5)
+            T = (lambda x, y: (float(y), float(x))) if sw else (lambda x, y: (float(x), float(y)))
+            d = 1
+            a, b = T(-L, 0), T(L, 0)
+            c.add("adde", bits(a[0]), bits(a[1]), d, bits(b[0]), bits(b[1]), d + 1); d += 2
+            up, dn = [], []
+            for _ in range(r.range(1, 4)):
+                p = T(r.range(-L // 2, L // 2), r.choice([1, 1, 2])); up.append(p)
+            for _ in range(r.range(1, 4)):
+                p = T(r.range(-L // 2, L // 2), -r.choice([1, 1, 2])); dn.append(p)
+            for p in up + dn:
+                c.ins(p[0], p[1], d); d += 1
+            if r.chance(0.3):
+                e, f = T(r.range(-L, L), 2 * L), T(r.range(-L, L), -2 * L)
+                c.ins(e[0], e[1], d); d += 1; c.ins(f[0], f[1], d); d += 1
+            for _ in range(10):
+                p, q = r.choice(up), r.choice(dn)
+                if r.chance(0.5):
+                    p, q = q, p
+                c.add(r.choice(["loc", "locv", "nn"]) if kind == "dt" else r.choice(["loc", "locv"]), bits(p[0]), bits(p[1]))
+                c.add("locv", bits(q[0]), bits(q[1]))
+            out.append(c)
+        return out
+    return g
+
+PROPS["C09"]["gen"] = gen_union(PROPS["C09"]["gen"], gen_locv_cdt(200, 2000))
